@@ -108,7 +108,14 @@ def _worker_init(seed):
 def _call(args):
     fn, task = args
     try:
-        return fn(task)
+        t0 = time.time()
+        res = fn(task)
+        if isinstance(res, dict) and os.environ.get("VERIF_PROGRESS"):
+            # sizing aid: worker seconds per kind of task (first two scalar fields)
+            lab = "/".join(str(x) for x in (task if isinstance(task, (tuple, list)) else [task])
+                           if isinstance(x, (str, int)))[:40]
+            res["_task_s"] = (lab, time.time() - t0)
+        return res
     except Exception:
         return {"harness_error": traceback.format_exc(), "task": repr(task)[:2000]}
 
@@ -185,6 +192,10 @@ class Ctx(object):
         if "harness_error" in res:
             raise HarnessError(res["harness_error"] + "\n task=" + res.get("task", ""))
         self.merge_counts(res.get("counts", {}))
+        if "_task_s" in res:
+            lab, dt = res["_task_s"]
+            ts = self.__dict__.setdefault("task_seconds", {})
+            ts[lab] = round(ts.get(lab, 0) + dt, 1)
         for item in res.get("viol", ()):
             sig, case, what = item[0], item[1], item[2]
             n = item[3] if len(item) > 3 else 1
@@ -211,7 +222,14 @@ class Ctx(object):
         else:
             it = self.pool().imap_unordered(_call, [(fn, t) for t in tasks],
                                             chunksize)
-        for res in it:
+        t0 = last = time.time()
+        for n, res in enumerate(it):
+            if os.environ.get("VERIF_PROGRESS") and time.time() - last > 30:
+                last = time.time()
+                sys.stderr.write("[progress] %d/%d tasks %.0fs violations=%d %s\n"
+                                 % (n + 1, len(tasks), last - t0, len(self.viol),
+                                    json.dumps(self.__dict__.get("task_seconds", {}), sort_keys=True)))
+                sys.stderr.flush()
             if absorb:
                 self.absorb(res)
             else:
